@@ -49,8 +49,10 @@ def sparc_ld_(obj, rd, a, op3, rs1, i, asi, rs2, simm13):
         adr += env.cst(simm13, 13).signextend(32)
         src = env.ptr(adr)
     dst = env.r[rd]
-    if op3 & 0xF == 0b0011 and rd % 1 == 1:
+    if op3 & 0xF == 0b0011 and rd % 2 == 1:
         raise InstructionError(obj)
+    # ldd/ldda semantics need the register number (for the odd register of the pair)
+    obj.rd = rd
     obj.operands = [src, dst]
     obj.type = type_data_processing
 
@@ -100,8 +102,10 @@ def sparc_st_(obj, rd, a, op3, rs1, i, asi, rs2, simm13):
         adr += env.cst(simm13, 13).signextend(32)
         dst = env.ptr(adr)
     src = env.r[rd]
-    if obj.mnemonic == "std" and rd % 1 == 1:
+    if obj.mnemonic in ("std", "stda") and rd % 2 == 1:
         raise InstructionError(obj)
+    # std/stda semantics need the register number (for the odd register of the pair)
+    obj.rd = rd
     obj.operands = [src, dst]
     obj.type = type_data_processing
 
